@@ -36,6 +36,7 @@ class Flag:
         self.clearers: list = []
         self.getters: list = []
         self.mixed: list = []  # functions that both set and clear/restore (e.g. context managers)
+        self.cms: list = []  # classes whose __enter__/__exit__ set / clear the flag (class-based context managers)
         self.guarded_setters: set = set()  # setters that raise when the flag is already set
         self.raising_getters: set = set()
 
@@ -86,7 +87,49 @@ def discover_flags(model: Model, roles: Roles, stack_tl) -> list:
             fl.getters.append(fn)
             if any(isinstance(n, ast.Raise) for n in walk_scope(fn.node)):
                 fl.raising_getters.add(q)
-    return [f for f in flags.values() if f.setters or f.clearers or f.mixed]
+    out = [f for f in flags.values() if f.setters or f.clearers or f.mixed]
+    for fl in out:
+        getq = {g.qualname for g in fl.getters}
+        for st in fl.setters:
+            if st.qualname in fl.guarded_setters:
+                continue
+            if any(isinstance(n, ast.Raise) for n in walk_scope(st.node)):
+                # the refusal is decided through a helper that reads the flag
+                for c in [n for n in walk_scope(st.node) if isinstance(n, ast.Call)]:
+                    t = model.resolve_call(st, c)
+                    if t.kind == "func" and t.target.qualname in getq:
+                        fl.guarded_setters.add(st.qualname)
+        # getters that delegate to a helper getter and raise
+        for f in model.all_functions(include_typeguard=False):
+            if f.module.short != "_storage" or f in fl.getters or f in fl.setters or f in fl.clearers or f in fl.mixed:
+                continue
+            calls_getter = any(isinstance(n, ast.Call) and model.resolve_call(f, n).kind == "func" and model.resolve_call(f, n).target.qualname in getq for n in walk_scope(f.node))
+            touches_other = any(isinstance(n, ast.Call) and model.resolve_call(f, n).kind == "func" and model.resolve_call(f, n).target in fl.setters + fl.clearers for n in walk_scope(f.node))
+            if calls_getter and not touches_other and f.cls is None:
+                fl.getters.append(f)
+                getq.add(f.qualname)
+                if any(isinstance(n, ast.Raise) for n in walk_scope(f.node)):
+                    fl.raising_getters.add(f.qualname)
+        # class-based context managers
+        prim = {x.qualname for x in fl.setters + fl.clearers + fl.mixed}
+        for c in model.classes.values():
+            en, ex = c.methods.get("__enter__"), c.methods.get("__exit__")
+            if en is None or ex is None:
+                continue
+            def touches(fn):
+                for n in walk_scope(fn.node):
+                    if isinstance(n, ast.Call):
+                        t = model.resolve_call(fn, n)
+                        if t.kind == "func" and t.target.qualname in prim:
+                            return True
+                    if isinstance(n, ast.Attribute) and isinstance(n.ctx, ast.Store):
+                        r_ = roles.tl_of_expr(fn, n)
+                        if r_ is not None and r_[0] == fl.tl:
+                            return True
+                return False
+            if touches(en) or touches(ex):
+                fl.cms.append(c)
+    return out
 
 
 def _is_module_sentinel(model, fn, v) -> bool:
@@ -140,7 +183,7 @@ class FlagResult:
 
 
 def analyse_flag_function(model: Model, roles: Roles, cg: CallGraph, flag: Flag, fn: FuncInfo,
-                          noret: NoReturn) -> FlagResult:
+                          noret: NoReturn, init_state=None, judge_normal_exit=True) -> FlagResult:
     setq = {f.qualname for f in flag.setters}
     clrq = {f.qualname for f in flag.clearers}
     getq = {f.qualname for f in flag.getters}
@@ -200,23 +243,23 @@ def analyse_flag_function(model: Model, roles: Roles, cg: CallGraph, flag: Flag,
                         direct[n.id] = "set"
                     elif _is_module_sentinel(model, fn, v):
                         direct[n.id] = "set"
-                    elif isinstance(v, ast.Name):
-                        direct[n.id] = "restore:" + v.id
+                    elif isinstance(v, (ast.Name, ast.Attribute)):
+                        direct[n.id] = "restore:" + norm(v)
                     else:
                         raise AnalysisError(f"{fn.qualname}: store of an unrecognised value into flag {flag.name}: `{norm(a)}`")
-            if len(a.targets) == 1 and isinstance(a.targets[0], ast.Name):
+            if len(a.targets) == 1 and isinstance(a.targets[0], (ast.Name, ast.Attribute)) and not is_flag_attr(a.targets[0]):
                 v = a.value
                 if isinstance(v, ast.Attribute) and is_flag_attr(v):
-                    direct[n.id] = "save:" + a.targets[0].id
+                    direct[n.id] = "save:" + norm(a.targets[0])
                 elif isinstance(v, ast.Call) and isinstance(v.func, ast.Name) and v.func.id == "getattr" and v.args and is_flag_attr(
                         ast.Attribute(value=v.args[0], attr=v.args[1].value if len(v.args) > 1 and isinstance(v.args[1], ast.Constant) else "?", ctx=ast.Load())):
-                    direct[n.id] = "save:" + a.targets[0].id
+                    direct[n.id] = "save:" + norm(a.targets[0])
 
     def saved_var(node, call):
-        """`v = <getter>()`: name v (whole-value assignment)."""
+        """`v = <getter>()` / `self.v = <getter>()`: key of the saved entry value."""
         a = node.ast
-        if node.kind == "stmt" and isinstance(a, ast.Assign) and a.value is call and len(a.targets) == 1 and isinstance(a.targets[0], ast.Name):
-            return a.targets[0].id
+        if node.kind == "stmt" and isinstance(a, ast.Assign) and a.value is call and len(a.targets) == 1 and isinstance(a.targets[0], (ast.Name, ast.Attribute)):
+            return norm(a.targets[0])
         return None
 
     def transfer(node, st, kind, succ_node):
@@ -229,8 +272,8 @@ def analyse_flag_function(model: Model, roles: Roles, cg: CallGraph, flag: Flag,
         # re-binding a saved variable forgets it
         if node.kind == "stmt" and isinstance(node.ast, ast.Assign) and not is_exc:
             for t in node.ast.targets:
-                if isinstance(t, ast.Name) and t.id in saved_d:
-                    del saved_d[t.id]
+                if isinstance(t, (ast.Name, ast.Attribute)) and norm(t) in saved_d:
+                    del saved_d[norm(t)]
         outs = []
         cur = (val, ek)
         exc_states = set()
@@ -315,7 +358,7 @@ def analyse_flag_function(model: Model, roles: Roles, cg: CallGraph, flag: Flag,
                 while isinstance(t, ast.UnaryOp) and isinstance(t.op, ast.Not):
                     pol = not pol
                     t = t.operand
-                if isinstance(t, ast.Name) and t.id in saved_d:
+                if isinstance(t, (ast.Name, ast.Attribute)) and norm(t) in saved_d:
                     learnt = "truthy" if (truth == pol) else "falsy"
                     if e != "?" and e != learnt:
                         continue  # infeasible
@@ -329,9 +372,11 @@ def analyse_flag_function(model: Model, roles: Roles, cg: CallGraph, flag: Flag,
             final.append((v, e, tuple(sorted(saved_d.items())), tuple(sorted(fd.items()))))
         return tuple(final)
 
-    fl = Flow(g, ("E", e0, (), ()), transfer)
+    fl = Flow(g, init_state if init_state is not None else ("E", e0, (), ()), transfer)
     bad = []
     for ex, is_raise in ((g.exit, False), (g.exit_e, True), (g.exit_b, True)):
+        if ex is g.exit and not judge_normal_exit:
+            continue
         for st in fl.states_at(ex):
             v, e = st[0], st[1]
             ok = v == "E" or (v == "CLR" and e == "falsy") or (v == "SET" and e == "truthy") or (v == "ERR" and is_raise)
@@ -340,12 +385,35 @@ def analyse_flag_function(model: Model, roles: Roles, cg: CallGraph, flag: Flag,
     return FlagResult(fn, flag, fl, g, bad, reentrant, sole)
 
 
+def analyse_cm(model: Model, roles: Roles, cg: CallGraph, flag: Flag, cls, noret: NoReturn):
+    """A class-based context manager: __enter__ runs from the entry value; every normal exit
+    state of __enter__ is an entry state of __exit__ (same activation region, same E), and every
+    exit of __exit__ -- and every raising exit of __enter__ -- must have the entry value.
+    Returns (results, ok)."""
+    en, ex = cls.methods["__enter__"], cls.methods["__exit__"]
+    r_en = analyse_flag_function(model, roles, cg, flag, en, noret, judge_normal_exit=False)
+    results = [r_en]
+    mids = set(r_en.flow.states_at(r_en.cfg.exit))
+    # instance attributes written in __enter__ are read in __exit__ through the same receiver
+    # name by convention (self); re-key if the receivers are named differently
+    s_en, s_ex = (en.params or ["self"])[0], (ex.params or ["self"])[0]
+    for st in sorted(mids, key=repr):
+        v, e, saved, facts = st
+        if s_en != s_ex:
+            saved = tuple((k.replace(s_en + ".", s_ex + ".", 1), x) for k, x in saved)
+        r_ex = analyse_flag_function(model, roles, cg, flag, ex, noret, init_state=(v, e, saved, ()))
+        results.append(r_ex)
+    return results, not any(r.bad for r in results)
+
+
 def functions_touching(model: Model, cg: CallGraph, flag: Flag) -> list:
     out = {}
+    cm_methods = {m.qualname for c in flag.cms for m in c.methods.values()}
     for f in flag.mixed:
-        out[f.qualname] = f
+        if f.qualname not in cm_methods:
+            out[f.qualname] = f
     for f in flag.setters + flag.clearers:
         for caller, _ in cg.callers(f):
-            if isinstance(caller, FuncInfo) and caller.module.short != "_storage":
+            if isinstance(caller, FuncInfo) and caller.module.short != "_storage" and caller.qualname not in cm_methods:
                 out[caller.qualname] = caller
     return list(out.values())
